@@ -51,13 +51,13 @@ type c37Auth struct {
 	Tok      c37Tok `json:"tok"`
 }
 type c37Cnr struct {
-	Decodes  bool   `json:"decodes"`
-	SysAttr  string `json:"sysAttr"` // none | allowed | forbidden | meta
-	MetaOn   bool   `json:"metaOn"`
-	PolicyOK bool   `json:"policyOK"`
-	Rules    string `json:"rules"` // rep | ec | mix
-	AllowEC  bool   `json:"allowEC"`
-	NnsOK    bool   `json:"nnsOK"`
+	Decodes  bool     `json:"decodes"`
+	Attrs    []string `json:"attrs"` // attribute kinds in wire order: user | allowed | meta | forbidden
+	MetaOn   bool     `json:"metaOn"`
+	PolicyOK bool     `json:"policyOK"`
+	Rules    string   `json:"rules"` // rep | ec | mix
+	AllowEC  bool     `json:"allowEC"`
+	NnsOK    bool     `json:"nnsOK"`
 }
 type c37Eacl struct {
 	Decodes    bool `json:"decodes"`
@@ -88,7 +88,7 @@ type c37Case struct {
 var (
 	allTrueTok = c37Tok{true, true, true, true, true, true}
 	goodAuth   = c37Auth{Auth: "sig", OwnerSig: true, Tok: allTrueTok}
-	goodCnr    = c37Cnr{Decodes: true, SysAttr: "none", PolicyOK: true, Rules: "rep", NnsOK: true}
+	goodCnr    = c37Cnr{Decodes: true, Attrs: []string{}, PolicyOK: true, Rules: "rep", NnsOK: true}
 	goodEacl   = c37Eacl{Decodes: true, CidOK: true, Extendable: true, RecordsOK: true}
 	c37Ops     = []string{"create", "createV2", "remove", "putEACL", "setAttr", "rmAttr"}
 )
@@ -141,6 +141,43 @@ func canon(in c37In) c37In {
 	return in
 }
 
+// attrLists: every attribute list of length 0..3 over the four kinds with the meta attribute at most once
+// (= AttrLists of spec/ContainerProc.tla).
+func attrLists() [][]string {
+	kinds := []string{"user", "allowed", "meta", "forbidden"}
+	res := [][]string{{}}
+	var rec func(cur []string)
+	rec = func(cur []string) {
+		if len(cur) == 3 {
+			return
+		}
+		for _, k := range kinds {
+			if k == "meta" {
+				dup := false
+				for _, x := range cur {
+					dup = dup || x == "meta"
+				}
+				if dup {
+					continue
+				}
+			}
+			nx := append(append([]string{}, cur...), k)
+			res = append(res, nx)
+			rec(nx)
+		}
+	}
+	rec(nil)
+	return res
+}
+
+func randAttrs(r *rand.Rand) []string {
+	all := attrLists()
+	if r.Intn(3) == 0 {
+		return []string{}
+	}
+	return all[r.Intn(len(all))]
+}
+
 func randAuth(r *rand.Rand, pFalse float64) c37Auth {
 	b := func() bool { return r.Float64() >= pFalse }
 	a := c37Auth{Auth: []string{"sig", "v1", "v2"}[r.Intn(3)]}
@@ -183,7 +220,7 @@ func c37gen(out string) {
 				case 6:
 					in.A.Tok.SessSig = false
 				case 7:
-					in.C.SysAttr = "forbidden"
+					in.C.Attrs = []string{"forbidden"}
 				case 8:
 					in.C.PolicyOK = false
 				case 9:
@@ -210,10 +247,20 @@ func c37gen(out string) {
 					in.EA.Tok.CidOK = false
 					in.EA.OwnerSig = false
 				case 20:
-					in.C.SysAttr = "allowed"
+					in.C.Attrs = []string{"allowed"}
 				case 21:
 					in.C.Decodes = false
 				}
+				emit(in)
+			}
+		}
+	}
+	// 1b. every attribute LIST (order matters) under both processor configurations, for both creation flows
+	for _, op := range []string{"create", "createV2"} {
+		for _, metaOn := range []bool{false, true} {
+			for _, l := range attrLists() {
+				in := baseIn(op)
+				in.C.Attrs, in.C.MetaOn = l, metaOn
 				emit(in)
 			}
 		}
@@ -229,7 +276,7 @@ func c37gen(out string) {
 		in := baseIn(c37Ops[r.Intn(len(c37Ops))])
 		in.A = randAuth(r, p)
 		in.EA = randAuth(r, p)
-		in.C = c37Cnr{Decodes: r.Intn(12) != 0, SysAttr: []string{"none", "none", "allowed", "forbidden", "meta"}[r.Intn(5)], MetaOn: r.Intn(2) == 0,
+		in.C = c37Cnr{Decodes: r.Intn(12) != 0, Attrs: randAttrs(r), MetaOn: r.Intn(2) == 0,
 			PolicyOK: b(), Rules: []string{"rep", "rep", "rep", "ec", "mix"}[r.Intn(5)], AllowEC: r.Intn(2) == 0, NnsOK: b()}
 		in.WithEACL = r.Intn(2) == 0
 		in.E = c37Eacl{Decodes: r.Intn(12) != 0, CidOK: b(), Extendable: b(), SysTarget: !b(), RecordsOK: b()}
@@ -509,26 +556,27 @@ func mkContainer(r *rand.Rand, c c37Cnr, owner party, extendable bool) container
 		cnr.SetBasicACL(acl.PublicRW)
 	}
 	cnr.SetPlacementPolicy(mkPolicy(r, c))
-	cnr.SetAttribute("Tag", fmt.Sprint(r.Int63()))
-	var d container.Domain
-	d.SetName("cnr")
-	d.SetZone("container")
-	switch c.SysAttr {
-	case "allowed":
-		if r.Intn(2) == 0 {
-			cnr.WriteDomain(d)
-		} else {
-			cnr.SetLockUntil(c37Now.Add(time.Hour))
+	// attributes in exactly the order of the abstract list (Container.Attributes() keeps the wire order)
+	allowed := [][2]string{{"__NEOFS__NAME", "cnr"}, {"__NEOFS__ZONE", "container"}, {"__NEOFS__LOCK_UNTIL", fmt.Sprint(c37Now.Add(time.Hour).Unix())}}
+	forbidden := [][2]string{{"__NEOFS__FOO", "bar"}, {"__NEOFS__DISABLE_HOMOMORPHIC_HASHING", "true"}, {"__NEOFS__BAR", "1"}}
+	fo := r.Intn(3)
+	na, nf, nu := 0, 0, 0
+	for _, k := range c.Attrs {
+		switch k {
+		case "user":
+			cnr.SetAttribute(fmt.Sprintf("User%d", nu), "x")
+			nu++
+		case "allowed":
+			cnr.SetAttribute(allowed[na%3][0], allowed[na%3][1])
+			na++
+		case "forbidden":
+			cnr.SetAttribute(forbidden[(fo+nf)%3][0], forbidden[(fo+nf)%3][1])
+			nf++
+		case "meta":
+			cnr.SetAttribute("__NEOFS__METAINFO_CONSISTENCY", []string{"strict", "optimistic"}[r.Intn(2)])
 		}
-	case "forbidden":
-		if r.Intn(2) == 0 {
-			cnr.SetAttribute("__NEOFS__FOO", "bar")
-		} else {
-			cnr.DisableHomomorphicHashing()
-		}
-	case "meta":
-		cnr.SetAttribute("__NEOFS__METAINFO_CONSISTENCY", []string{"strict", "optimistic"}[r.Intn(2)])
 	}
+	cnr.SetAttribute("Tag", fmt.Sprint(r.Int63())) // makes the container unique; a user attribute at the end
 	return cnr
 }
 
